@@ -23,6 +23,8 @@ CONSTANTS
     Bound,        \* a value v fits iff -Bound < v < Bound   (code: len(|v|.Bytes()) <= MAX_INT_SIZE, Bound = 2^256)
     \* @type: Int;
     MaxShift,     \* SHL faults for a shift count > MaxShift (code: MAX_INT_SIZE*8 = 256); an operand bound of the VM
+    \* @type: Int;
+    MaxShrCount,  \* SHR faults for a shift count > MaxShrCount (code: the count must fit a uint64); an operand bound of the VM
     \* @type: Bool;
     CmpUnbounded, \* named deviation: LT/GT/LTE/GTE/NUMEQUAL/NUMNOTEQUAL do not enforce the size bound on their operands
     \* @type: Bool;
@@ -99,7 +101,7 @@ ResMIN(a, b) == IF Fits2(a, b) THEN Ok(IF a < b THEN a ELSE b) ELSE Fault
 \* @type: (Int, Int) => { f: Bool, v: Int };
 ResSHL(a, b) == IF Fits2(a, b) /\ 0 <= b /\ b <= MaxShift THEN Bounded(a * Pow2(b)) ELSE Fault
 \* @type: (Int, Int) => { f: Bool, v: Int };
-ResSHR(a, b) == IF Fits2(a, b) /\ 0 <= b THEN Ok(ShrExact(a, b)) ELSE Fault
+ResSHR(a, b) == IF Fits2(a, b) /\ 0 <= b /\ b <= MaxShrCount THEN Ok(ShrExact(a, b)) ELSE Fault
 \* @type: (Int, Int) => { f: Bool, v: Int };
 ResNUMEQUAL(a, b) == IF CmpFits(a, b) THEN Ok(B2I(a = b)) ELSE Fault
 \* @type: (Int, Int) => { f: Bool, v: Int };
